@@ -49,6 +49,8 @@ func (s *Step) String() string {
 	switch s.Op {
 	case "store":
 		return fmt.Sprintf("store(%d)", s.B.Block.Number)
+	case "genesis":
+		return "store-genesis"
 	case "finalise":
 		return fmt.Sprintf("finalise(%d)", s.B.Block.Number)
 	case "rejected":
@@ -182,6 +184,17 @@ func (n *Node) exec(s *Step) error {
 			}
 			if !c.Block.Hash.Equal(s.B.Block.Hash) {
 				return fmt.Errorf("Finalise produced block hash %s, the source node %s", c.Block.Hash.String(), s.B.Block.Hash.String())
+			}
+			return nil
+		case "genesis":
+			// the node's own genesis path: StoreGenesis builds block 0 around the given state diff and
+			// appends it through Finalise (no transactions, zero header fields, no signature)
+			c := s.B.Clone()
+			if err := n.bc.StoreGenesis(c.SU.StateDiff, c.Classes); err != nil {
+				return err
+			}
+			if h, err := n.bc.Head(); err != nil || !h.Hash.Equal(s.B.Block.Hash) {
+				return fmt.Errorf("StoreGenesis produced a different block than the source node (%v)", err)
 			}
 			return nil
 		case "rejected":
@@ -424,6 +437,31 @@ func (b *builder) finalise(spec *lib.BlockSpec) {
 		panic(fmt.Sprintf("generator: %v", err))
 	}
 	b.push(Step{Op: "finalise", B: bd})
+}
+
+// genesis makes the chain's block 0 through StoreGenesis on the source node and appends the step.
+func (b *builder) genesis(diff *core.StateDiff, classes map[felt.Felt]core.ClassDefinition) {
+	if b.g.Height() != 0 {
+		panic("harness: genesis on a non-empty chain")
+	}
+	d := lib.DeepCopy(diff).(*core.StateDiff)
+	if err := b.g.Src.StoreGenesis(d, classes); err != nil {
+		panic(fmt.Sprintf("generator: source StoreGenesis: %v", err))
+	}
+	blk, err := b.g.Src.Head()
+	if err != nil {
+		panic(fmt.Sprintf("generator: head after StoreGenesis: %v", err))
+	}
+	su, err := b.g.Src.StateUpdateByNumber(0)
+	if err != nil {
+		panic(fmt.Sprintf("generator: state update after StoreGenesis: %v", err))
+	}
+	bd := (&lib.Bundle{Block: blk, SU: su, Classes: classes}).Clone()
+	st := lib.NewAbsState()
+	st.Apply(0, diff, classes)
+	b.g.Bundles = append(b.g.Bundles, bd)
+	b.g.States = append(b.g.States, st)
+	b.push(Step{Op: "genesis", B: bd})
 }
 
 // rejectedParent offers a block with the expected number whose parent is a block that has been
